@@ -1,0 +1,59 @@
+//go:build verif
+
+package maps
+
+// Contracts for govc (/verif). Comment-only file: no executable code, not part of the default build.
+
+/*@
+// ================= C25: the chunked hash index (ConcurrentMap) behaves like one map =================
+
+// chunk selector: only that it is a function of the key matters (body: FNV-1a over the bytes of the key)
+func fnv32(key string) (r uint32)
+  pure
+  trusted
+
+// representation: at least one chunk, every chunk has a map
+spec fn cmOk(m *ConcurrentMap) bool = m != nil && m.nChunks > 0 && len(m.chunks) == m.nChunks && (forall i :: 0 <= i && i < len(m.chunks) ==> m.chunks[i] != nil && m.chunks[i].items != nil)
+spec fn chunkFor(m *ConcurrentMap, key string) *concurrentMapChunk = m.chunks[fnv32(key) % m.nChunks]
+
+func (m *ConcurrentMap) getChunk(key string) (r *concurrentMapChunk)
+  requires cmOk(m)
+  ensures  r == chunkFor(m, key) && r != nil && r.items != nil
+  assigns  m.mutex
+
+func (m *ConcurrentMap) SetIfAbsent(key string, value interface{}) (r bool)
+  requires cmOk(m)
+  ensures  added-iff-absent: r == !old(has(chunkFor(m, key).items, key))
+  ensures  present-afterwards: has(chunkFor(m, key).items, key)
+  ensures  new-value-stored: r ==> chunkFor(m, key).items[key] == value
+  ensures  old-value-kept: !r ==> chunkFor(m, key).items[key] == old(chunkFor(m, key).items[key])
+  ensures  cmOk(m)
+  assigns  m.mutex, chunkFor(m, key).mutex, mapof(chunkFor(m, key).items)
+
+func (m *ConcurrentMap) Remove(key string) (item interface{}, ok bool)
+  requires cmOk(m)
+  ensures  absent-afterwards: !has(chunkFor(m, key).items, key)
+  ensures  returns-old-value: old(has(chunkFor(m, key).items, key)) ==> item == old(chunkFor(m, key).items[key])
+  ensures  reports-non-nil: ok == (item != nil)
+  ensures  absent-reports-false: !old(has(chunkFor(m, key).items, key)) ==> !ok
+  ensures  cmOk(m)
+  assigns  m.mutex, chunkFor(m, key).mutex, mapof(chunkFor(m, key).items)
+
+func (m *ConcurrentMap) Get(key string) (item interface{}, ok bool)
+  requires cmOk(m)
+  ensures  ok == has(chunkFor(m, key).items, key)
+  ensures  ok ==> item == chunkFor(m, key).items[key]
+  assigns  m.mutex, chunkFor(m, key).mutex
+@*/
+
+/*@
+// ---- C25: the bucket-sorted sender map: only the frame of its operations is used (ASSUMPTION: they touch nothing but
+// the map's own chunks and the item's score-chunk bookkeeping) ----
+func (sortedMap *BucketSortedMap) Set(item BucketSortedMapItem)
+  assigns sortedMap.mutex
+  trusted
+
+func (sortedMap *BucketSortedMap) Remove(key string) (r interface{}, ok bool)
+  assigns sortedMap.mutex
+  trusted
+@*/
